@@ -388,13 +388,15 @@ class Stream(object):
         # Transfer coding names are case-insensitive and may be followed by
         # parameters (RFC 7230 section 4). The body is chunked if chunked
         # is the final coding (section 3.3.3).
+        # Empty list elements are ignored (section 7).
         codings = [
             coding.partition(';')[0].strip().lower()
             for coding in
             response.fields.get('Transfer-Encoding', '').split(',')
+            if coding.strip()
         ]
 
-        if codings[-1] == 'chunked':
+        if codings and codings[-1] == 'chunked':
             return 'chunked'
         elif 'Content-Length' in response.fields:
             return 'length'
